@@ -84,21 +84,23 @@ theorem denied_peer_believed_by_old_code :
     wrapAccept toyNetZ witPP b!"tcp" b!"[fe80::1%eth0]:1" (some b!"6.6.6.6:7777") = some ⟨b!"[fe80::1%eth0]:1", false⟩ := by
   decide
 
-/-! ### FastCGI: a field spelled with an underscore gets the CGI name of the forwarding field
+/-! ### FastCGI: what the environment loop did before ambiguous field names were dropped
 
-fastcgi.go `buildEnv` turns every request field into `HTTP_<NAME>` with '-' and ' ' replaced by '_' and
-writes them in Go map order: `X_Forwarded_For` (a valid field name net/http accepts) and the proxy's own
-`X-Forwarded-For` both become `HTTP_X_FORWARDED_FOR`, and which one the PHP application sees depends on
-the iteration order.  An untrusted client can thus make the application see a forwarding value of its
-choice.  Reproduced on the real code (both values observed); protocol line in `Driver.witnessLines`. -/
+fastcgi.go `buildEnv` used to write every request field as `HTTP_<NAME>` ('-' and ' ' replaced by '_') in
+Go map order: `X_Forwarded_For` (a valid field name) and the proxy's own `X-Forwarded-For` both became
+`HTTP_X_FORWARDED_FOR` and the iteration order decided which one the PHP application saw.  Repaired (fields
+spelled with '_' or ' ' are no longer passed on); the old behaviour is kept as a non-vacuity fact, its
+protocol line in corpus/C10/fixed-findings.txt. -/
 
-/-- FULL statement (fails): for an untrusted peer the only value HTTP_X_FORWARDED_FOR can take is the
-    connection's. -/
-theorem fastcgi_forwarded_variable_full_fails :
-    ∃ (cfg : Cfg Bytes) (c : Conn) (w : List (Bytes × Bytes)) (e : FcgiEnv),
-      peerTrusted toyNet cfg c = false ∧ serveFcgi toyNet cfg c w .none = some e ∧
-      b!"6.6.6.6" ∈ e.xff ∧ remoteHost c = some b!"1.2.3.4" :=
-  ⟨{ witCfg with omitXFF := false }, witConn, [(b!"X_Forwarded_For", b!"6.6.6.6")],
-   ⟨b!"1.2.3.4", b!"80", [b!"1.2.3.4", b!"6.6.6.6"], [b!"http"], [b!"a"]⟩, by decide, by decide, by decide, by decide⟩
+/-- the loop as it was: every field with that CGI name is a candidate -/
+def envCandidatesOld (h : Header) (name : Bytes) : List Bytes :=
+  (h.filter (fun e => envName e.1 = name)).map envValueOf
+
+/-- with the old loop the untrusted client's `X_Forwarded_For: 6.6.6.6` was a possible value of
+    HTTP_X_FORWARDED_FOR next to the connection's 1.2.3.4; now only the latter is -/
+theorem fastcgi_underscore_twin_won_in_old_code :
+    (prepareRequest toyNet { witCfg with omitXFF := false } witConn false
+        (fromWire [(b!"X_Forwarded_For", b!"6.6.6.6")])).map (fun h => (envCandidatesOld h envXFF, envCandidates h envXFF)) =
+      some ([b!"1.2.3.4", b!"6.6.6.6"], [b!"1.2.3.4"]) := by decide
 
 end CaddyModel.C10
